@@ -149,7 +149,7 @@ theorem specCut_none (algo : Algo) (f : FilterConfig) (data : Bytes) (s : Nat)
     · cases h
     · omega
 
-theorem specChunksFrom_le (algo : Algo) (f : FilterConfig) (hv : f.Valid) (data : Bytes) :
+theorem specChunksFrom_le (algo : Algo) (f : FilterConfig) (hv : f.Sane) (data : Bytes) :
     ∀ k s, ∀ c ∈ specChunksFrom algo f data k s, c.2 ≤ f.maxSize := by
   intro k
   induction k with
@@ -196,8 +196,8 @@ theorem fixedChunksFrom_le (n len : Nat) :
 theorem specChunks_le (cfg : Config) (hv : cfg.Valid) (data : Bytes) :
     ∀ c ∈ specChunks cfg data, c.2 ≤ maxChunk cfg := by
   cases cfg with
-  | rollsum f => exact specChunksFrom_le .roll f hv data _ _
-  | buzhash f => exact specChunksFrom_le .buz f hv data _ _
+  | rollsum f => exact specChunksFrom_le .roll f (FilterConfig.Sane_of_ValidRoll hv) data _ _
+  | buzhash f => exact specChunksFrom_le .buz f (FilterConfig.Sane_of_Valid hv) data _ _
   | fixed n => exact fixedChunksFrom_le n data.length _ _
 
 /-- The byte strings of the source chunks. -/
